@@ -152,7 +152,8 @@ class Inotify:
         self._inotify_fd = inotify_fd
         self._lock = threading.Lock()
         self._closed = False
-        self._is_reading = True
+        # No read is in flight until read_events() says so: a close() that comes first releases the descriptors itself.
+        self._is_reading = False
         try:
             self._kill_r, self._kill_w = os.pipe()
         except BaseException:
